@@ -18,11 +18,14 @@ RULE = ('span pairs: old span = every prefix (quick: length 0..3, thorough 0..5)
         'fills rotate through a palette (None, bools, ints, halves, nan, inf, strings that fit / are truncated / do not parse), unknown fill '
         'names x strict argument None/True/False x object strict flag; histories (an earlier reindex call with other fill arguments on the same '
         'object or on a sibling instance of the same class); old spans with duplicates; the new span being the original span '
-        'object; the pandas mixin with default and explicit arguments and fill methods; a tracer-extended model. Non-trivial = at least one '
+        'object; the pandas mixin with default and explicit arguments and fill methods; a tracer-extended model; stacked mixins (aliases, aliases + '
+        'tracer, pandas + tracer: same class, aliases resolve on the result); BaseLinker.reindex (NotImplementedError, linker unchanged). Non-trivial = at least one '
         'overlapping and one new period, or an exception path; distinct by hash of the whole case.')
 TRUSTED = ['label / value encoding harness/locate_common.py and harness/props/C12.py',
            'identity scan of the result against the original (np.shares_memory, `is` on attributes and object cells)',
-           'for the pandas mixin the recorded answers of Series.reindex and of the casting assignment are the model\'s oracles']
+           'for the pandas mixin the recorded answers of Series.reindex and of the casting assignment are the model\'s oracles',
+           'pandas get_loc / __contains__ of the old span: recorded per case; for period_range / fixed-frequency date_range old spans ALSO compared with the '
+           'executable index model LocateIndex.reg_get_loc / reg_contains, for which old_span_ok is proved']
 ASSUMPTIONS = ['the conversion of a fill value to a dtype (bool()/int()/str() + np.full(n, value, dtype)) is CPython/NumPy behaviour: tabulated in '
                'Reindex.cast_tbl on the generator\'s palette (incl. NumPy not converting the value when n = 0) and exercised entry by entry',
                'pandas get_loc / __contains__ answers are recorded per case and handed to the model as its oracle tables',
@@ -179,7 +182,24 @@ def _classes():
 
     class MT(TracerMixin, M):
         pass
-    return {'BM': M, 'BMP': MP, 'BMT': MT}
+
+    # stacked mixins: aliases, aliases + tracer, pandas reindex + tracer
+    from fsic.extensions import AliasMixin
+
+    class MA(AliasMixin, M):
+        ALIASES = {'GDP': 'Y', 'INPUT': 'X', 'OUTPUT': 'GDP'}
+
+    class MAT(AliasMixin, TracerMixin, M):
+        ALIASES = {'GDP': 'Y', 'INPUT': 'X'}
+
+    class MPT(PandasIndexFeaturesMixin, TracerMixin, M):
+        pass
+    return {'BM': M, 'BMP': MP, 'BMT': MT, 'BMA': MA, 'BMAT': MAT, 'BMPT': MPT}
+
+
+TRACED = ('BMT', 'BMAT', 'BMPT')
+PANDAS = ('BMP', 'BMPT')
+ALIASED = ('BMA', 'BMAT')
 
 
 def _build(case, span):
@@ -194,12 +214,16 @@ def _build(case, span):
             else:
                 c.add_variable(v['name'], [dec_pv(x) for x in v['data'][:n]], dtype=NP_DTYPE[v['dtype']])
         return c
+    if cls == 'LK':
+        M = _classes()['BM']
+        subs = {k: M(span, X=[float(i + 1) for i in range(n)]) for k in ('a', 'b')}
+        return fsic.BaseLinker(subs, name='l')
     M = _classes()[cls]
     m = M(span, strict=case.get('obj_strict', False), X=[float(i + 1) for i in range(n)])
     for v in case['vars']:
         m.add_variable(v['name'], [dec_pv(x) for x in v['data'][:n]], dtype=NP_DTYPE[v['dtype']])
     for t in range(1, min(case.get('solved', 0), n - 1) + 1):
-        if cls == 'BMT':
+        if cls in TRACED:
             m.solve_t(t, trace=True)
         else:
             m.solve_t(t)
@@ -268,7 +292,7 @@ def impl(case):
     for name, v in case.get('fills', []):
         kw[name] = dec_pv(v)
     calls = []
-    if case['cls'] == 'BMP':
+    if case['cls'] in PANDAS:
         for k, v in case.get('pandas', {}).items():
             kw[k] = v
         orig_reindex = pd.Series.reindex
@@ -291,10 +315,10 @@ def impl(case):
             r = None
             obs['out'] = ['raise', type(e).__name__]
     finally:
-        if case['cls'] == 'BMP':
+        if case['cls'] in PANDAS:
             pd.Series.reindex = orig_reindex
     # oracle tables for the mixin: what Series.reindex answered, and what `arr[:] = values` makes of it
-    if case['cls'] == 'BMP':
+    if case['cls'] in PANDAS:
         obs['series_calls'] = []
         obs['assign_casts'] = []
         names = list(c.names)
@@ -324,6 +348,11 @@ def impl(case):
         obs['vars'] = _snapshot(r, objmap)
         obs['attrs'] = _attrs(r)
         obs['strict'] = bool(r.strict)
+        if case['cls'] in ALIASED:
+            try:
+                obs['alias_ok'] = bool(r.GDP is r.Y and r['INPUT'] is r['X'] and r.aliases == c.aliases and r.aliases is not c.aliases)
+            except Exception as e:
+                obs['alias_ok'] = type(e).__name__
         # identity scan: arrays, attribute objects, object cells, the span
         shared = []
         for name in c.index:
@@ -415,7 +444,9 @@ def c_parts(case, obs):
     cls = case['cls']
     if cls == 'VC':
         kind = 'RContainer'
-    elif cls in ('BM', 'BMT'):
+    elif cls == 'LK':
+        kind = 'RLinker'
+    elif cls in ('BM', 'BMT', 'BMA', 'BMAT'):
         kind = 'RModel'
     else:
         p = case.get('pandas', {})
@@ -550,6 +581,12 @@ def oracle(case, obs):
         bad('any', 'timeout', 'no answer within the watchdog limit')
         return fails
     cls = case['cls']
+    if cls == 'LK':
+        # BaseLinker.reindex is documented as not implemented: the property does not quantify over linkers; the failed call
+        # must still leave the linker as it was
+        if not obs['orig_unchanged']:
+            bad('BaseLinker.reindex', 'original-changed', 'the linker changed during the (rejected) reindex call')
+        return fails
     is_model = cls != 'VC'
     old_labs = [lc.canon(j) for j in lc.span_labels(case['old'])]
     new_labs = [lc.canon(j) for j in lc.span_labels(new_spec)]
@@ -557,12 +594,12 @@ def oracle(case, obs):
     fills = dict((n, v) for n, v in case.get('fills', []))
     strict = case.get('strict') if case.get('strict') is not None else case.get('obj_strict', False)
     unknown = [n for n in fills if n not in names]
-    if cls == 'BMP' and strict and not unknown and any(n in ('status', 'iterations') for n in fills):
+    if cls in PANDAS and strict and not unknown and any(n in ('status', 'iterations') for n in fills):
         # the mixin tests the keywords against `names`, which lacks status / iterations
         if obs['out'] == ['raise', 'KeyError']:
             fails.append({'sig': SIG_PANDAS_STATUS, 'what': 'status / iterations given as fill keywords are rejected under strict although they are variables of the model'})
             return fails
-    site = {'VC': 'VectorContainer.reindex', 'BM': 'BaseModel.reindex', 'BMP': 'PandasIndexFeaturesMixin.reindex', 'BMT': 'BaseModel.reindex'}[cls]
+    site = 'VectorContainer.reindex' if cls == 'VC' else ('PandasIndexFeaturesMixin.reindex' if cls in PANDAS else 'BaseModel.reindex')
     if not obs['orig_unchanged']:
         bad(site, 'original-changed', 'the original object changed during reindex')
     if strict and unknown:
@@ -611,16 +648,18 @@ def oracle(case, obs):
                 if not _same_cell(newd[i], exp):
                     bad(site, 'overlap-value-lost', '%s[%d] (period present in both spans) is %s, was %s' % (name, i, newd[i], exp))
             elif fill != 'skip' and not _same_cell(newd[i], fill):
-                if cls == 'BMP' and name in ('status', 'iterations') and name in fills:
+                if cls in PANDAS and name in ('status', 'iterations') and name in fills:
                     fails.append({'sig': SIG_PANDAS_STATUS, 'what': '%s keyword ignored: new period holds %s, expected %s' % (name, newd[i], fill)})
-                elif cls == 'BMP' and name not in fills and case.get('fill_value') is None and not case.get('pandas'):
+                elif cls in PANDAS and name not in fills and case.get('fill_value') is None and not case.get('pandas'):
                     fails.append({'sig': SIG_PANDAS, 'what': '%s (%s) new period filled with %s, expected %s' % (name, dt, newd[i], fill)})
-                elif cls == 'BMP' and case.get('pandas'):
+                elif cls in PANDAS and case.get('pandas'):
                     pass          # a fill method was requested: new periods take propagated values, outside the statement
                 else:
                     bad(site, 'wrong-fill', '%s[%d] (new period) is %s, expected fill %s' % (name, i, newd[i], fill))
     if obs['attrs'] != obs['old_attrs']:
         bad(site, 'attributes', 'attributes differ: %s vs %s' % (obs['attrs'], obs['old_attrs']))
+    if obs.get('alias_ok', True) is not True:
+        bad(site, 'aliases-lost', 'the aliases of the original do not resolve on the result (or the alias table is shared): %s' % obs.get('alias_ok'))
     if obs['strict'] != case.get('obj_strict', False):
         bad(site, 'strict-flag', 'strict flag not carried over')
     for s in obs['shared']:
@@ -797,6 +836,39 @@ def gen(rng, tier):
     for n_old, new_n, solved in itertools.product((3, 4), (2, 4, 5), (0, 2)):
         cases.append({'cls': 'BMT', 'old': fams[0][2](n_old), 'new': fams[0][2](new_n), 'vars': [], 'solved': solved,
                       'fill_value': None, 'fills': [], 'strict': None, 'obj_strict': False})
+    # stacked mixins: aliases, aliases + tracer (object cells: finding #21), pandas reindex + tracer; the result keeps the class
+    sk = 0
+    for cls in ('BMA', 'BMAT', 'BMPT'):
+        for fname, uni, mk, _ in fams[:2] + fams[6:7]:
+            for n_old, n_new, solved in itertools.product((3, 4), (2, 4, 5), (0, 2)):
+                sk += 1
+                c = {'cls': cls, 'old': mk(n_old), 'new': mk(n_new) if sk % 3 else {'type': 'list', 'labels': [uni[i] for i in (n_new, 1, 0)]},
+                     'vars': [[], STD_VARS[:2], STD_VARS[2:]][sk % 3], 'solved': solved, 'fill_value': [None, None, ['f', 2.5]][sk % 3] if cls != 'BMPT' else None,
+                     'fills': [], 'strict': [None, True, False][sk % 3], 'obj_strict': sk % 4 == 0}
+                if cls == 'BMPT':
+                    c['pandas'] = {}
+                elif sk % 2:
+                    c['fills'] = [['Y', ['f', -0.5]], ['iterations', ['i', 0]]]
+                cases.append(c)
+    # tuples as old / new spans; numeric aliases of labels in the new span (2001.0 for 2001: the same period under Python equality)
+    tk = 0
+    for old_labels in ([['i', 2000], ['i', 2001], ['i', 2002]], [['s', 'a'], ['s', 'b']]):
+        for new_labels in ([old_labels[1], old_labels[0], ['i', 7]], list(reversed(old_labels)), [['s', 'zz']] + old_labels, []):
+            for ot, nt in (('tuple', 'tuple'), ('tuple', 'list'), ('list', 'tuple')):
+                for cls in ('VC', 'BM'):
+                    tk += 1
+                    cases.append({'cls': cls, 'old': {'type': ot, 'labels': old_labels}, 'new': {'type': nt, 'labels': new_labels}, 'vars': STD_VARS,
+                                  'solved': tk % 3, 'fill_value': [None, ['i', 3]][tk % 2] if cls == 'VC' else None, 'fills': [], 'strict': None, 'obj_strict': False})
+    for ot in ('range', 'list', 'nparr'):
+        old = fams[0][2](3) if ot == 'range' else {'type': ot, 'labels': [['i', 2000 + i] for i in range(3)]}
+        for cls in ('VC', 'BM'):
+            cases.append({'cls': cls, 'old': old, 'new': {'type': 'list', 'labels': [['f', 2001.0], ['i', 2005], ['f', 2000.0], ['f', 2000.5]]}, 'vars': STD_VARS,
+                          'solved': 1, 'fill_value': None, 'fills': [], 'strict': None, 'obj_strict': False})
+    # linkers: reindex is documented as not implemented (NotImplementedError whatever the arguments)
+    for n_old, n_new in ((2, 3), (3, 2), (0, 1)):
+        for fv, fl in ((None, []), (['f', 2.5], []), (None, [['status', ['s', 'F']]])):
+            cases.append({'cls': 'LK', 'old': fams[0][2](n_old), 'new': fams[0][2](n_new), 'vars': [], 'solved': 0, 'fill_value': fv, 'fills': fl,
+                          'strict': None, 'obj_strict': False})
     # histories: an earlier reindex call with per-variable fills / a fill_value, on the same object or on a sibling instance of
     # the same class, then the call under observation with other (or no) fill arguments
     hk = 0
